@@ -35,5 +35,10 @@ var vHarnesses = map[string]func(a []int){
 	"VH_C15": func(a []int) { VH_C15(a[0], a[1], a[2]) },
 	"VH_C14_OK": func(a []int) { VH_C14_OK(a[0], a[1], a[2], a[3]) },
 	"VH_C14_FAULTY": func(a []int) { VH_C14_FAULTY(a[0], a[1]) },
+	"VH_C06_RAW": func(a []int) { VH_C06_RAW(a[0], a[1]) },
+	"VH_C06_TOK": func(a []int) { VH_C06_TOK(a[0], a[1]) },
+	"VH_C06_STMT": func(a []int) { VH_C06_STMT(a[0], a[1]) },
+	"VH_C06_FUNC": func(a []int) { VH_C06_FUNC(a[0], a[1], a[2]) },
+	"VH_C19": func(a []int) { VH_C19(a[0], a[1], a[2]) },
 	"VH_C02_L2": func(a []int) { VH_C02_L2(a[0], a[1], a[2], a[3], a[4]) },
 }
